@@ -84,8 +84,24 @@ def overlap_contract():
                 source="C02: 'a block that writes any bit of a signal runs before every block that reads an overlapping bit': two index/slice ranges overlap iff they share a bit")],
     modifies=[], returns=None, property_ids=('C02','C09'))
 
+def nbits_contracts():
+  S="C10: 'an integer literal's inferred width is the least number of bits that holds it'"
+  cs=[]
+  def inputs(repo,reg):
+    for v in range(0,70000): yield {'value':v}
+    for k in range(16,1100):
+      for d in (-1,0,1): yield {'value':2**k+d}
+  for key in ('pymtl3/passes/rtlir/rtype/RTLIRDataType.py::_get_nbits_from_value',):
+    cs.append(Contract(key, view={'value':IntT()},
+      cases=[Case('non-negative', requires='value >= 0', ensures='result >= 1 and value < pow2(result) and (result == 1 or pow2(result - 1) <= value)', source=S)],
+      modifies=[], returns=IntT(), property_ids=('C10',), standin_inputs=inputs,
+      bounded="all values in [0, 70000) and 2^k+d for 16 <= k < 1100, |d| <= 1 (used only while the body is out of reach: floating point)",
+      note="negative literals: the function implements ceil(log2(|v|)), which the statement does not define; not under contract"))
+  return cs
+
 def register(reg):
   reg.add(overlap_contract())
+  for c in nbits_contracts(): reg.add(c)
   prev=None
   for i in range(1,8):
     reg.declare_class(f'ComponentLevel{i}',L[i],bases=((f'ComponentLevel{i-1}',) if i>1 else ()))
